@@ -22,6 +22,7 @@ import random
 
 from sim import aioloop as A
 from sim.adata import FAULT_CLASSES
+from sim.envs import clear_process_caches
 from sim.core import Outcome, digest, exc_key, scrub
 from sim.envs import AE_MODES, CodeMemo
 from sim.probe import PEvents, make_probe_data
@@ -156,6 +157,7 @@ def _key(res):
 
 def run(tape: Tape) -> Outcome:
     setup()
+    clear_process_caches()  # a run must not depend on the runs before it in this worker
     out = Outcome()
     sandboxed = bool(tape.draw(2))
     is_async = bool(tape.draw(2))
